@@ -266,6 +266,24 @@ func litValue(t string) (*big.Int, bool) {
 	return nil, false
 }
 
+// slIdx is the position of element i of slice s in its backing array. In int mode it is an
+// uninterpreted function with the defining axiom sidx(s,i) = off(s)+i instead of the sum itself, so
+// that quantifier patterns over slice elements contain no arithmetic: E-matching does not match
+// `(+ off a)` patterns reliably (argument order of + differs between patterns and ground terms),
+// which left preservation goals of list invariants undecided by all three solvers.
+func (e *Engine) slIdx(s, i string) string {
+	if e.S.BV {
+		return e.arith("+", fmt.Sprintf("(sl_off %s)", s), i, tInt)
+	}
+	is := e.S.IntSort()
+	e.S.DeclareFun("sidx", []string{"Slice", is}, is)
+	if !e.S.has("ax_sidx") {
+		e.S.decls["ax_sidx"] = &Decl{}
+		e.S.AddAxiom([]string{"sidx"}, fmt.Sprintf("(forall ((s!i Slice) (i!i %s)) (! (= (sidx s!i i!i) (+ (sl_off s!i) i!i)) :pattern ((sidx s!i i!i))))", is))
+	}
+	return fmt.Sprintf("(sidx %s %s)", s, i)
+}
+
 // arith performs a Go binary operation on two terms of the same integer type.
 func (e *Engine) arith(op string, a, b string, typ types.Type) string {
 	uns := isUnsigned(typ)
